@@ -1,4 +1,5 @@
 import PyPhysim.Proofs.C10Fresh
+import PyPhysim.Proofs.C10Obs
 import PyPhysim.Proofs.C10Closed
 import PyPhysim.Proofs.C10Combined
 import PyPhysim.Proofs.C10Mmse
@@ -186,6 +187,54 @@ theorem history_ignores_rejected_calls (O : Ops μ ρ) (K : Nat) (pre post : Lis
     ∧ (run Cfg.fixed O K (reach Cfg.fixed O K (pre ++ [op])) post).2
         = (run Cfg.fixed O K (reach Cfg.fixed O K pre) post).2 :=
   run_skip_rejected O K pre post op hm e he
+
+/-- Class R11 (the non-mutating API does not mutate) and R13 (copies): a getter, a query
+    (`calc_Q`, `calc_SINR`, `get_cost`, `repr`, … — modelled as `query`) or a copy / pickle round trip
+    (`fork`) made at ANY point of ANY history changes no later output: the outputs of every
+    continuation `post` are those of the history that never made the call.  (Such calls may
+    populate `_full_F`, `_W_H`, `_full_W_H`, `_full_W`; `ObsEq` shows that this is unobservable.) -/
+theorem passive_calls_never_change_later_results (O : Ops μ ρ) (K : Nat) (pre post : List (Op μ ρ))
+    (r : Op μ ρ) (hr : r.isPassive = true) :
+    (run Cfg.fixed O K (reach Cfg.fixed O K (pre ++ [r])) post).2
+      = (run Cfg.fixed O K (reach Cfg.fixed O K pre) post).2 := by
+  have hc := reach_coherent O K pre
+  have h1 : reach Cfg.fixed O K (pre ++ [r]) = (step Cfg.fixed O K (reach Cfg.fixed O K pre) r).1 := by
+    simp only [reach, run_append, run]
+  rw [h1]
+  exact (run_obs O K post _ _ (passive_obs O K _ r hr hc)).2
+
+/-- Observationally equal objects (same `_F`, `_P`, `_Ns`, same values of the `W`, `W_H`, `full_F`
+    getters — e.g. an object and its copy on which other getters were called, or two objects configured
+    through different but equivalent calls) give the same outputs under every later sequence of calls. -/
+theorem equivalent_objects_behave_identically (O : Ops μ ρ) (K : Nat) (s t : State μ ρ)
+    (h : ObsEq O K s t) (ops : List (Op μ ρ)) :
+    (run Cfg.fixed O K s ops).2 = (run Cfg.fixed O K t ops).2 :=
+  (run_obs O K ops s t h).2
+
+/-- Class R8 (equivalent entry points): `set_receive_filters(W=X)` and
+    `set_receive_filters(W_H=Xᴴ)` are interchangeable — for every conjugate transposition that is an
+    involution, every earlier history and every later sequence of calls the outputs coincide. -/
+theorem filter_setter_forms_agree (O : Ops μ ρ) (K : Nat) (hinv : ∀ X, O.herm (O.herm X) = X)
+    (pre post : List (Op μ ρ)) (X : μ) :
+    (run Cfg.fixed O K (reach Cfg.fixed O K (pre ++ [.setFilters none (some X)])) post).2
+      = (run Cfg.fixed O K (reach Cfg.fixed O K (pre ++ [.setFilters (some (O.herm X)) none])) post).2 := by
+  have hc := reach_coherent O K pre
+  have e1 : reach Cfg.fixed O K (pre ++ [.setFilters none (some X)])
+      = { clearRx (reach Cfg.fixed O K pre) with w := some X, wH := none } := by
+    simp only [reach, run_append, run, step, doSetFilters]
+  have e2 : reach Cfg.fixed O K (pre ++ [.setFilters (some (O.herm X)) none])
+      = { clearRx (reach Cfg.fixed O K pre) with w := none, wH := some (O.herm X) } := by
+    simp only [reach, run_append, run, step, doSetFilters]
+  rw [e1, e2]
+  set st := reach Cfg.fixed O K pre with hst
+  have ho : ObsEq O K ({ clearRx st with w := some X, wH := none } : State μ ρ)
+      ({ clearRx st with w := none, wH := some (O.herm X) } : State μ ρ) := by
+    refine ⟨rfl, rfl, rfl, ?_, ?_, getFullF_congr O K _ _ rfl rfl rfl, ?_, ?_⟩
+    · simp [getW, readW, hinv]
+    · simp [getWH, readWH]
+    · exact coherent_of_empty O K _ rfl rfl (by simp)
+    · exact coherent_of_empty O K _ rfl rfl (by simp)
+  exact (run_obs O K post _ _ ho).2
 
 /-- Before the second repair two more rejected calls modified the object: `set_receive_filters`
     with both / neither argument cleared the stored filters, `randomizeF` with a rejected power
